@@ -16,7 +16,8 @@ EXPLANATION = (
     "statement; R4 the generator peels a final `loop` off a block before generating the other statements, which is "
     "what makes its `Statement::Loop => unreachable!()` arm dead. Agreement over all statement trees is not decided."
     " ADDED LATER: R3-LINT-TYPESTATE: may-typestate of the linter's two Option flags (None/Some, Option::take): a statement is linted as a naked branch only as the branch of an if, and the flags never survive into the next statement, function or declaration; R5 the syntax analyzer visits every statement (T2)."
-    " ROUNDS 5-6: the per-module reset of analyzer and linter (C12.R3) is shared.")
+    " ROUNDS 5-6: the per-module reset of analyzer and linter (C12.R3) is shared."
+    " ROUND 7: R7-ERRORS-MERGED: the parts of a statement are resolved together (tuple) so that the placement errors of every part are reported.")
 
 AN = "alpha::analyzer::syntax::"
 ST = "<alpha::common::Statement as alpha::analyzer::syntax::Analyzable>::analyze"
